@@ -597,14 +597,14 @@ theorem annotation_equiv_from_two_files
     (hfile : GbFileOk feats origin fs)
     (hv : VerOk ver) (hne0 : rows ≠ []) (hok : ∀ r ∈ rows, GffRowOk seqid source dot extra r)
     (hfs : AllDescribe fs genes) (hrows : cdsRows rows = genes.flatMap Gene.rows)
-    (hoff : ∀ g ∈ genes, g.Offset) (hor : ∀ g ∈ genes, g.Oriented) (hf : ∀ g ∈ genes, g.Faithful ref)
+    (hoff : ∀ g ∈ genes, g.Offset) (hst : ∀ g ∈ genes, g.AscStarts) (hor : ∀ g ∈ genes, g.Oriented) (hf : ∀ g ∈ genes, g.Faithful ref)
     (hnd : (genes.map Gene.name).Nodup) (hne : ∀ g ∈ genes, g.name ≠ "")
     (rsB interB : _) (hB : regionsFromGbText (GbRT.render feats origin) ref.length = some (rsB, interB))
     (rsF interF : _)
     (hF : regionsFromGffText (GffText.render ver (rowsToText seqid source dot extra rows)) ref = some (rsF, interF)) :
     rsB = genes.map Gene.region ∧ rsF = sortStable regionStartLt rsB ∧ rsF.Perm rsB ∧ interF = interB := by
   rw [regionsFromGbText_of_feats _ fs origin _ hfile.reads] at hB
-  exact FromBytes.annotation_equiv_from_bytes ver seqid source dot extra fs rows genes ref hv hne0 hok hfs hrows hoff hor hf
+  exact FromBytes.annotation_equiv_from_bytes ver seqid source dot extra fs rows genes ref hv hne0 hok hfs hrows hoff hst hor hf
     hnd hne rsB interB hB rsF interF hF
 
 /-- the same for the simple GenBank writer -/
@@ -615,7 +615,7 @@ theorem annotation_equiv_from_two_files_simple
     (hne1 : fs ≠ []) (hok1 : ∀ f ∈ fs, GbFeatureOkW w f) (ho : OriginOk origin)
     (hv : VerOk ver) (hne0 : rows ≠ []) (hok : ∀ r ∈ rows, GffRowOk seqid source dot extra r)
     (hfs : AllDescribe fs genes) (hrows : cdsRows rows = genes.flatMap Gene.rows)
-    (hoff : ∀ g ∈ genes, g.Offset) (hor : ∀ g ∈ genes, g.Oriented) (hf : ∀ g ∈ genes, g.Faithful ref)
+    (hoff : ∀ g ∈ genes, g.Offset) (hst : ∀ g ∈ genes, g.AscStarts) (hor : ∀ g ∈ genes, g.Oriented) (hf : ∀ g ∈ genes, g.Faithful ref)
     (hnd : (genes.map Gene.name).Nodup) (hne : ∀ g ∈ genes, g.name ≠ "")
     (rsB interB : _)
     (hB : regionsFromGbText (GbRT.render (featsToTextW w fs) origin) ref.length = some (rsB, interB))
@@ -623,7 +623,7 @@ theorem annotation_equiv_from_two_files_simple
     (hF : regionsFromGffText (GffText.render ver (rowsToText seqid source dot extra rows)) ref = some (rsF, interF)) :
     rsB = genes.map Gene.region ∧ rsF = sortStable regionStartLt rsB ∧ rsF.Perm rsB ∧ interF = interB :=
   annotation_equiv_from_two_files _ origin fs ver seqid source dot extra rows genes ref
-    (gbFileOk_simple w fs origin hne1 hok1 ho) hv hne0 hok hfs hrows hoff hor hf hnd hne rsB interB hB rsF interF hF
+    (gbFileOk_simple w fs origin hne1 hok1 ho) hv hne0 hok hfs hrows hoff hst hor hf hnd hne rsB interB hB rsF interF hF
 
 /-- **variants_equiv_from_two_files** - hence the mutation records reported with the annotation read from the GFF3
 bytes are those reported with the annotation read from the GenBank bytes, for every (reference row, query row) pair -/
@@ -634,7 +634,7 @@ theorem variants_equiv_from_two_files
     (hfile : GbFileOk feats origin fs)
     (hv : VerOk ver) (hne0 : rows ≠ []) (hok : ∀ r ∈ rows, GffRowOk seqid source dot extra r)
     (hfs : AllDescribe fs genes) (hrows : cdsRows rows = genes.flatMap Gene.rows)
-    (hoff : ∀ g ∈ genes, g.Offset) (hor : ∀ g ∈ genes, g.Oriented) (hf : ∀ g ∈ genes, g.Faithful ref)
+    (hoff : ∀ g ∈ genes, g.Offset) (hst : ∀ g ∈ genes, g.AscStarts) (hor : ∀ g ∈ genes, g.Oriented) (hf : ∀ g ∈ genes, g.Faithful ref)
     (hnd : (genes.map Gene.name).Nodup) (hne : ∀ g ∈ genes, g.name ≠ "")
     (rsB : List Region) (interB : List Nat)
     (hB : regionsFromGbText (GbRT.render feats origin) ref.length = some (rsB, interB))
@@ -643,7 +643,7 @@ theorem variants_equiv_from_two_files
     (refRow qRow : List Nat) (v : Variant) :
     v ∈ getVariantsPair refRow qRow rsF interF ↔ v ∈ getVariantsPair refRow qRow rsB interB := by
   rw [regionsFromGbText_of_feats _ fs origin _ hfile.reads] at hB
-  exact FromBytes.variants_equiv_from_bytes ver seqid source dot extra fs rows genes ref hv hne0 hok hfs hrows hoff hor hf
+  exact FromBytes.variants_equiv_from_bytes ver seqid source dot extra fs rows genes ref hv hne0 hok hfs hrows hoff hst hor hf
     hnd hne rsB interB hB rsF interF hF refRow qRow v
 
 /-- both routes succeed on the bytes (the hypotheses hB, hF above are not vacuous) -/
@@ -654,12 +654,12 @@ theorem both_succeed_from_two_files
     (hfile : GbFileOk feats origin fs)
     (hv : VerOk ver) (hne0 : rows ≠ []) (hok : ∀ r ∈ rows, GffRowOk seqid source dot extra r)
     (hfs : AllDescribe fs genes) (hrows : cdsRows rows = genes.flatMap Gene.rows)
-    (hoff : ∀ g ∈ genes, g.Offset) (hor : ∀ g ∈ genes, g.Oriented) (hf : ∀ g ∈ genes, g.Faithful ref)
+    (hoff : ∀ g ∈ genes, g.Offset) (hst : ∀ g ∈ genes, g.AscStarts) (hor : ∀ g ∈ genes, g.Oriented) (hf : ∀ g ∈ genes, g.Faithful ref)
     (hnd : (genes.map Gene.name).Nodup) (hne : ∀ g ∈ genes, g.name ≠ "") :
     (regionsFromGbText (GbRT.render feats origin) ref.length).isSome = true ∧
     (regionsFromGffText (GffText.render ver (rowsToText seqid source dot extra rows)) ref).isSome = true := by
   rw [regionsFromGbText_of_feats _ fs origin _ hfile.reads]
-  exact FromBytes.both_succeed_from_bytes ver seqid source dot extra fs rows genes ref hv hne0 hok hfs hrows hoff hor hf
+  exact FromBytes.both_succeed_from_bytes ver seqid source dot extra fs rows genes ref hv hne0 hok hfs hrows hoff hst hor hf
     hnd hne
 
 /-- **annotation_equal_from_two_files** - when the files list the genes by non-decreasing smallest coding position, the
@@ -671,14 +671,14 @@ theorem annotation_equal_from_two_files
     (hfile : GbFileOk feats origin fs)
     (hv : VerOk ver) (hne0 : rows ≠ []) (hok : ∀ r ∈ rows, GffRowOk seqid source dot extra r)
     (hfs : AllDescribe fs genes) (hrows : cdsRows rows = genes.flatMap Gene.rows)
-    (hoff : ∀ g ∈ genes, g.Offset) (hor : ∀ g ∈ genes, g.Oriented) (hf : ∀ g ∈ genes, g.Faithful ref)
+    (hoff : ∀ g ∈ genes, g.Offset) (hst : ∀ g ∈ genes, g.AscStarts) (hor : ∀ g ∈ genes, g.Oriented) (hf : ∀ g ∈ genes, g.Faithful ref)
     (hnd : (genes.map Gene.name).Nodup) (hne : ∀ g ∈ genes, g.name ≠ "")
     (hs : genes.Pairwise (fun g h => minPos g.positions ≤ minPos h.positions)) :
     regionsFromGffText (GffText.render ver (rowsToText seqid source dot extra rows)) ref =
       regionsFromGbText (GbRT.render feats origin) ref.length := by
   rw [regionsFromGbText_of_feats _ fs origin _ hfile.reads,
     regionsFromGffText_of_rows _ rows none ref (gffRowsOfText_render ver seqid source dot extra rows hv hne0 hok)]
-  exact RegionEquiv.annotation_equal_of_sorted fs rows genes ref hfs hrows hoff hor hf hnd hne hs
+  exact RegionEquiv.annotation_equal_of_sorted fs rows genes ref hfs hrows hoff hst hor hf hnd hne hs
 
 end TwoFiles
 
@@ -764,7 +764,7 @@ example : FromBytes.regionsFromGffText
   obtain ⟨h1, h2, h3, h4, h5, h6, h7⟩ := RegionEquiv.nv_hyps
   exact annotation_equal_from_two_files exFeats RegionEquiv.nvRef RegionEquiv.nvFs [51] FromBytes.exSeqid FromBytes.exSource true []
     FromBytes.exRows [RegionEquiv.nvA, RegionEquiv.nvB] RegionEquiv.nvRef exFile_ok GffRT.sampleVer_ok (by decide)
-    FromBytes.exRows_ok h1 FromBytes.exRows_cds h2
+    FromBytes.exRows_ok h1 FromBytes.exRows_cds h2 RegionEquiv.nv_ascStarts
     (fun g hg => RegionEquiv.oriented_of_asc_faithful g RegionEquiv.nvRef (h3 g hg) (h4 g hg)) h4 h5 h6 h7
 
 
